@@ -8,6 +8,7 @@ import (
 	"math/big"
 	"os"
 	"path"
+	"regexp"
 	"sort"
 	"strconv"
 	"strings"
@@ -481,6 +482,22 @@ func (e *Enc) evalType(s string, pkg *types.Package) (types.Type, error) {
 				}
 			}
 		}
+		// last resort: a type expression that mentions (possibly unexported) names of one other
+		// package, e.g. map[string]*tracer.traceResult: evaluate it inside that package
+		if m := regexp.MustCompile(`\b([A-Za-z_][A-Za-z0-9_]*)\.`).FindStringSubmatch(s); m != nil {
+			var cands []*types.Package
+			for _, p := range e.P.tpkgs {
+				if p.Name() == m[1] {
+					cands = append(cands, p)
+				}
+			}
+			sort.Slice(cands, func(i, j int) bool { return cands[i].Path() < cands[j].Path() })
+			for _, p := range cands {
+				if tv2, err2 := types.Eval(e.P.fset, p, token.NoPos, strings.ReplaceAll(s, m[1]+".", "")); err2 == nil {
+					return tv2.Type, nil
+				}
+			}
+		}
 		return nil, err
 	}
 	return tv.Type, nil
@@ -546,9 +563,11 @@ func (e *Enc) subRef(t types.Type, field int, ref string) string {
 	si := e.W.structInfo(t)
 	name := "sub!" + strings.TrimPrefix(si.Sort, "S!") + "!" + sanitize(si.St.Field(field).Name())
 	e.W.needRoot()
+	// subkind: addresses of different embedded fields (different struct type or field) are different
+	e.W.declare("subkind", "(declare-fun subkind (Int) Int)")
 	e.W.declare(name, fmt.Sprintf("(declare-fun %s (Int) Int)\n(declare-fun %s.inv (Int) Int)\n"+
-		"(assert (forall ((r Int)) (! (and (< (%s r) 0) (= (%s.inv (%s r)) r) (= (root (%s r)) (root r))) :pattern ((%s r)))))",
-		name, name, name, name, name, name, name))
+		"(assert (forall ((r Int)) (! (and (< (%s r) 0) (= (%s.inv (%s r)) r) (= (root (%s r)) (root r)) (= (subkind (%s r)) %d)) :pattern ((%s r)))))",
+		name, name, name, name, name, name, name, e.W.subKindID(name), name))
 	return app(name, ref)
 }
 
